@@ -332,8 +332,11 @@ func (d *Datastore) Subscribe(req *sdcpb.SubscribeRequest, stream sdcpb.DataServ
 	// start periodic gets, TODO: optimize using cache RPC
 	wg := new(sync.WaitGroup)
 	wg.Add(len(req.GetSubscription()))
-	errCh := make(chan error, 1)
+	// every sampler goroutine reports at most one error and nobody reads the channel
+	// while they run: give each of them room, otherwise the second one blocks forever
+	errCh := make(chan error, len(req.GetSubscription()))
 	doneCh := make(chan struct{})
+	var closeDone sync.Once
 	for _, subsc := range req.GetSubscription() {
 		go func(subsc *sdcpb.Subscription) {
 			ticker := time.NewTicker(time.Duration(subsc.GetSampleInterval()))
@@ -350,7 +353,7 @@ func (d *Datastore) Subscribe(req *sdcpb.SubscribeRequest, stream sdcpb.DataServ
 					err := d.doSubscribeOnce(ctx, subsc, stream)
 					if err != nil {
 						errCh <- err
-						close(doneCh)
+						closeDone.Do(func() { close(doneCh) })
 						return
 					}
 				}
